@@ -425,7 +425,7 @@ func (x *wireExec) exchange(cs *Case, wit interface{}) {
 		x.s.Violation("C15/node-unresponsive:"+surface+":connection-goroutines-do-not-end",
 			fmt.Sprintf("handshake / Peer.Run / reader still running %v after the remote closed the connection", wireWatchdog), wit)
 	}
-	checkAlloc(x.s, surface, a, sent, atomic.LoadInt64(&received), wit)
+	checkAlloc(x.s, surface, a, len(script.Frames), sent, atomic.LoadInt64(&received), wit)
 }
 
 func trimErr(e error) string {
